@@ -104,7 +104,7 @@ def read_ev(filename):
         elif ll[i].lstrip().startswith("EulerChar:"):
             d.update({"EulerChar": int(ll[i].split(":", 1)[1].strip())})
             i = i + 1
-        elif ll[i].lstrip().startswith("Time(pre)"):
+        elif ll[i].lstrip().lower().startswith("time(pre)"):
             d.update({"TimePre": int(ll[i].split(":", 1)[1].strip())})
             i = i + 1
         elif ll[i].lstrip().startswith("Time(calcAB)"):
@@ -139,7 +139,9 @@ def read_ev(filename):
             while ll[i].find("{") < 0:  # possibly introduce termination criterion
                 i = i + 1
             if ll[i].find("}") >= 0:  # '{' and '}' on the same line
-                evecs = ll[i].strip().replace("{", "").replace("}", "")
+                evecs = ll[i].strip().replace("{", "").replace("}", "").replace(
+                    "(", ""
+                ).replace(")", "")
             else:
                 evecs = ""
                 while ll[i].find("}") < 0:
